@@ -99,6 +99,7 @@ fn random(a: &Args) {
             cfg.p_write = 0.5;
             cfg.n_res = 2;
         }
+        shredh::record::set_build_async(rng.gen_bool(0.15));
         let degenerate = rng.gen_bool(a.num("pdegenerate", 0.06));
         shredh::record::set_no_pool(rng.gen_bool(if degenerate { 0.5 } else { 0.02 }));
         let special = rng.gen_range(0..100);
